@@ -251,6 +251,8 @@ EDGE_SOURCES = (
     ('2', 'subsequence((1, 2, 3), ())'), ('31', 'subsequence((1, 2, 3), 1, ())'), ('31', "compare('a', 'b', xs:anyURI('http://www.w3.org/2005/xpath-functions/collation/codepoint'))"),
     ('31', "compare('a', 'b', 1)"), ('2', "ceiling(xs:untypedAtomic('1'))"), ('31', "floor(xs:untypedAtomic('x'))"), ('31', 'map:find(map{xs:double("NaN"): 1}, xs:double("NaN"))'),
     ('31', "doc('http://[')"), ('31', "doc-available('http://[')"), ('31', "format-integer(0, 'a', 'de')"), ('31', "format-integer(28, 'A', 'xx')"),
+    ('1', 'xs:'), ('2', '/a/b:'), ('31', 'child::p:'), ('31', '1 + fn:'), ('1', '*:'), ('31', 'a:'), ('2', 'Q{u}'), ('31', '$p:'),
+    ('2', '1.5 - //c'), ('31', "0.5 div xs:untypedAtomic('abc')"), ('31', "7.0 idiv xs:untypedAtomic(' ')"), ('31', '2.5 * //b'), ('2', '//c + 1.5'),
 )
 _PARSERS = {'1': XPath1Parser, '2': XPath2Parser, '31': XPath31Parser}
 
